@@ -66,8 +66,9 @@ LEVEL_TEXT = ("Machine-checked proof (Coq). Ledger, for all traces it accepts: t
               "playfield.balls = num_balls_known + pending and sum(available) = num_balls_known - pending, hence at "
               "every rest point (books closed) all counts sum to num_balls_known and, when the counters agree with the "
               "physical device contents, playfield.balls equals the balls physically loose; 0 <= balls <= capacity for "
-              "every device at every observable point; a coil is pulsed only in state 'ejecting' and only while "
-              "capacity - counted exceeds the expected incoming balls of the target; an arriving ball is matched only "
+              "every device at every observable point; a coil is pulsed only in state 'ejecting' and only after the "
+              "readiness check of that attempt was announced, which is accepted only while capacity - counted "
+              "exceeds the balls the target expects from other sources (MPF's numbers at the check); an arriving ball is matched only "
               "with an expected ball that has passed its confirm switch/event, and a ball is booked as lost only "
               "while it is still expected (never both).  Counting layer, for all switch timelines of an idle device: "
               "0 <= count <= number of switches (entrance counter: <= ball_capacity); a switch state stable for the "
